@@ -44,6 +44,7 @@ def continuations(spec, menu, fillable):
         evs += [("fill", e) for e in menu["events"][:3]]
         if S.fields(spec):
             evs.append(("fillnp", None))
+            evs.append(("fillnp-scalar", None))
     evs.append(("iadd", None))
     out = [()]
     out += [(e,) for e in evs]
@@ -56,6 +57,12 @@ def apply_cont(spec, obj, evs_ref, step, menu):
     if k == "fill":
         obj.fill(A.fresh(e[0]), e[1])
         evs_ref.append(e)
+    elif k == "fillnp-scalar":
+        from .c03 import norm_rec, numpy_alphabet, to_batch
+
+        recs = [norm_rec(r) for r in numpy_alphabet(spec, "core", 3)]
+        obj.fill.numpy(to_batch(recs))  # default scalar weight: nodes that cannot see the arrays rely on the row count
+        evs_ref.extend(zip(recs, [1.0] * len(recs)))
     elif k == "fillnp":
         from .c03 import norm_rec, numpy_alphabet, to_batch
 
@@ -136,7 +143,7 @@ def check_member(spec, build_member, evs, fillable, args, menu, tier):
             out.append(core.v_exc(PROP, "continue", "== raised", e, ca))
             return out
         d = C.diff(dh, R.ref_doc(spec, ref_h), prune_zero=True)
-        if d and not any(k == "fillnp" for k, _ in cont):
+        if d and not any(k.startswith("fillnp") for k, _ in cont):
             pass  # content vs reference is C02/C05's business; bisimulation above is the C11 oracle
     return out
 
